@@ -36,7 +36,7 @@ BOUNDED_STANDINS = {
             ("one-shot interface of the shipped serializers on the real code: deserialize(serialize(p)) == p through the serializer and DatagramProtocol; malformed / doubled / truncated datagrams", ["drivers/framings.py", "--oneshot"], {"quick": "", "thorough": ""})],
     "C07": [("shipped framings end to end on the real code: raw JSON, zlib / bz2 wrappers, length-prefixed file-based subclass, base64, line, struct - valid in-limit packets and one malformed frame under every chunking tried, both receive paths", ["drivers/framings.py", "--budget"], {"quick": "300000", "thorough": "3000000"})],
     "C12": [("concurrent senders on one TLS transport over a stallable in-memory transport (real ssl objects): packets arrive whole, once, per-sender order", ["drivers/tls_send.py"], {"quick": "", "thorough": ""}),
-            ("FairLock.acquire/release/_wake_up_first (rely-guarantee over a queue of waiters: not brought under contract)", ["drivers/fair_lock.py"], {"quick": "", "thorough": ""})],
+            ("FairLock end to end on the real class under a deterministic event loop (acquire / release / _wake_up_first are under contract over a counting model of the deque of waiters; this run exercises the real deque and events): mutual exclusion, FIFO hand-over, no lost wake-up", ["drivers/fair_lock.py"], {"quick": "", "thorough": ""})],
 }
 CONFORMANCE_SAMPLES = {
     "C20": ["asyncio-writelines-backpressure"],
